@@ -145,6 +145,19 @@ bool outsideUnit(double x)
 {
     return std::fabs(x) > 1.0 + 1e-6;
 }
+bool outsideUnitModerate(double x)
+{
+    // acoth(x) = atanh(1/x) is written with logarithms in the profiles: keep away from cancellation at large |x|
+    return std::fabs(x) > 1.0 + 1e-3 && std::fabs(x) < 1e3;
+}
+bool moderateNonzero(double x)
+{
+    return std::fabs(x) > 1e-3 && std::fabs(x) < 1e3;
+}
+bool openUnitPositiveModerate(double x)
+{
+    return x > 1e-3 && x < 1.0 - 1e-3;
+}
 bool aboveOne(double x)
 {
     return x > 1.0 + 1e-6;
@@ -277,9 +290,13 @@ Val evalExpr(const ExprP &e, const LeafFn &leaf)
     case Op::FALSE_:
         return Val::exact(0.0);
     case Op::E:
-        return Val::exact(std::exp(1.0));
-    case Op::PI:
-        return Val::exact(std::acos(-1.0));
+    case Op::PI: {
+        // generator profiles write these constants with 15 significant digits
+        Val c;
+        c.v = e->op == Op::E ? std::exp(1.0) : std::acos(-1.0);
+        c.e = 5e-15 * c.v;
+        return c;
+    }
     case Op::INF:
     case Op::NAN_:
         return Val::bad("non-finite constant");
@@ -471,9 +488,9 @@ Val evalExpr(const ExprP &e, const LeafFn &leaf)
     case Op::ASINH: return unary(K(0), f_asinh, trigRange);
     case Op::ACOSH: return unary(K(0), f_acosh, aboveOne);
     case Op::ATANH: return unary(K(0), f_atanh, insideUnit);
-    case Op::ASECH: return unary(K(0), f_asech, openUnitPositive);
-    case Op::ACSCH: return unary(K(0), f_acsch, nonzero);
-    case Op::ACOTH: return unary(K(0), f_acoth, outsideUnit);
+    case Op::ASECH: return unary(K(0), f_asech, openUnitPositiveModerate);
+    case Op::ACSCH: return unary(K(0), f_acsch, moderateNonzero);
+    case Op::ACOTH: return unary(K(0), f_acoth, outsideUnitModerate);
     case Op::PIECEWISE: {
         size_t n = e->kids.size();
         size_t pairs = e->hasOtherwise ? (n - 1) / 2 : n / 2;
